@@ -226,6 +226,14 @@ class UpgradedSignature(_util.funcsigs.Signature):
                 upgraded_return_annotation = self.upgraded_return_annotation
         ret = super().replace(*args, parameters=parameters, **kwargs)
         assert isinstance(ret, type(self))
+        if sources is self.sources and any(
+                name != '+depths' and name not in ret.parameters
+                for name in sources):
+            # parameters were taken away (inspect does so when it binds a
+            # method): nothing should refer to them anymore
+            sources = dict(
+                (name, value) for name, value in sources.items()
+                if name == '+depths' or name in ret.parameters)
         ret.sources = sources
         ret.upgraded_return_annotation = upgraded_return_annotation
         return ret
